@@ -51,7 +51,7 @@ def evaluate(ctx, run):
 
 
 def run(ctx):
-    proof_ok, proof = common.proof_status_all(ctx, "C01", ["gaps1"])
+    proof_ok, proof = common.proof_status_all(ctx, "C01", ["gaps1", "C01_checks"])
     n = 4000 if ctx.quick else 400000
     s = ctx.seed
     plan = [(0, n // 2, s), (8, n // 4, s + 1), (2, n // 8, s + 2), (4, n // 8, s + 3), (32, n // 8, s + 4), (64, n // 4, s + 5),
@@ -81,7 +81,13 @@ def run(ctx):
     ores = c11_order.run_order(ctx, 3000 if ctx.quick else 100000, ctx.seed + 57, corpus_prop="C01")
     if not ofail and not seq_bad:
         c11_order.report(ctx, ores)
+    # the internal consistency tests (LegalizerBase::check, AbacusLegalizer::check, export size test): model functions vs the C++ check()
+    # on the states the library reaches and on corrupted copies (coq/InternalChecks.v, Properties_C01_checks.v)
+    from checks import internal_checks
+    ick = internal_checks.run_ichecks(ctx, 1200 if ctx.quick else 60000, 0, ctx.seed + 71)
+    internal_checks.report(ctx, ick)
     cov = dict(proof)
+    cov.update(internal_checks.summary(ick))
     dist = lc.distribution(run)
     cov.update({"closed_model_order_tie": c11_order.summary(ores),
                 "trusted_base": common.TRUSTED_BASE + ["computeCellOrder: the order-parametric theorems hold for every order (the model is run with the implementation's order); the closed-model theorems "
